@@ -479,3 +479,472 @@ Section SvgProofs.
   Qed.
 End SvgProofs.
 
+(* ================================================================== *)
+(** * E. string-set / bookmark-label pass *)
+Section RelabelProofs.
+  Context (reparse : css_token -> name) (mlink : N).
+
+  Definition lk_eqb (a b : lookup_key) : bool := N.eqb (lk_box a) (lk_box b) && token_eqb (lk_token a) (lk_token b).
+
+  (* what the rest of layout and the backend can see of the state: the labels,
+     and for every string name the values filed under it (layout.go:229-240) *)
+  Definition rs_equiv (s s' : relabel_state) : Prop :=
+    rs_src_label s = rs_src_label s' /\ rs_child_label s = rs_child_label s' /\
+    forall n, strings_named n (rs_src_strings s) = strings_named n (rs_src_strings s').
+
+  Lemma rs_equiv_refl s : rs_equiv s s. Proof. repeat split. Qed.
+  Lemma rs_equiv_trans a b c : rs_equiv a b -> rs_equiv b c -> rs_equiv a c.
+  Proof. intros (H1 & H2 & H3) (H4 & H5 & H6). split; [congruence|split; [congruence|intros n; now rewrite H3]]. Qed.
+
+  Lemma strings_named_app n l1 l2 : strings_named n (l1 ++ l2) = strings_named n l1 ++ strings_named n l2.
+  Proof. unfold strings_named. now rewrite filter_app, map_app. Qed.
+
+  Lemma strings_named_remove_other n m l : n <> m ->
+    strings_named n (remove_first_named m l) = strings_named n l.
+  Proof.
+    intros Hne. induction l as [|e r IH]; [reflexivity|]. cbn [remove_first_named].
+    destruct (bytes_eqb_spec (fst e) m) as [He|He].
+    - unfold strings_named. cbn [filter]. destruct (bytes_eqb_spec (fst e) n); [congruence|reflexivity].
+    - unfold strings_named in *. cbn [filter]. destruct (bytes_eqb (fst e) n); cbn [map]; now rewrite IH.
+  Qed.
+
+  (* removing the first entry named m leaves, under m, the tail of what was there *)
+  Lemma strings_named_remove_same m l :
+    strings_named m (remove_first_named m l) = tl (strings_named m l).
+  Proof.
+    induction l as [|e r IH]; [reflexivity|]. cbn [remove_first_named].
+    destruct (bytes_eqb_spec (fst e) m) as [He|He].
+    - unfold strings_named. cbn [filter]. destruct (bytes_eqb_spec (fst e) m); [reflexivity|congruence].
+    - unfold strings_named in *. cbn [filter]. destruct (bytes_eqb_spec (fst e) m); [congruence|exact IH].
+  Qed.
+
+  Lemma named_single_same n v : strings_named n [(n, v)] = [v].
+  Proof. unfold strings_named. cbn. now rewrite bytes_eqb_refl. Qed.
+  Lemma named_single_other n m v : n <> m -> strings_named n [(m, v)] = [].
+  Proof. intros H. unfold strings_named. cbn. destruct (bytes_eqb_spec m n); [congruence|reflexivity]. Qed.
+
+  Lemma relabel_step_compat s s' k : rs_equiv s s' -> rs_equiv (relabel_step reparse mlink s k) (relabel_step reparse mlink s' k).
+  Proof.
+    intros (H1 & H2 & H3). unfold relabel_step.
+    destruct (negb (N.eqb (lk_box k) mlink)); [repeat split; auto|].
+    destruct (lk_token k) as [| |n|n]; try (repeat split; auto; fail).
+    - rewrite H2. destruct (bytes_eqb (rs_child_label s') []); repeat split; auto.
+    - repeat split; auto. cbn [rs_src_strings]. intros m. rewrite !strings_named_app. f_equal.
+      destruct (bytes_eqb_spec m n) as [->|Hne].
+      + rewrite !strings_named_remove_same. now rewrite H3.
+      + rewrite !strings_named_remove_other by assumption. apply H3.
+  Qed.
+
+  Lemma relabel_step_commute s a b : a <> b ->
+    rs_equiv (relabel_step reparse mlink (relabel_step reparse mlink s a) b)
+             (relabel_step reparse mlink (relabel_step reparse mlink s b) a).
+  Proof.
+    intros Hne. destruct a as [ba ta], b as [bb tb]. unfold relabel_step. cbn [lk_box lk_token].
+    destruct (N.eqb_spec ba mlink) as [->|Ha]; cbn [negb]; [|apply rs_equiv_refl].
+    destruct (N.eqb_spec bb mlink) as [->|Hb]; cbn [negb]; [|apply rs_equiv_refl].
+    destruct ta as [| |na|na], tb as [| |nb|nb]; cbn [rs_child_label rs_src_label rs_src_strings];
+      try apply rs_equiv_refl; try congruence.
+    - destruct (bytes_eqb (rs_child_label s) []); cbn [rs_child_label rs_src_label rs_src_strings]; apply rs_equiv_refl.
+    - destruct (bytes_eqb (rs_child_label s) []); cbn [rs_child_label rs_src_label rs_src_strings]; apply rs_equiv_refl.
+    - assert (Hn : na <> nb) by congruence. assert (Hn' : nb <> na) by congruence.
+      repeat split. cbn [rs_src_strings]. intros m.
+      destruct (bytes_eqb_spec m na) as [->|Hma]; [|destruct (bytes_eqb_spec m nb) as [->|Hmb]];
+        repeat first [ rewrite strings_named_app | rewrite strings_named_remove_same
+                     | rewrite strings_named_remove_other by assumption
+                     | rewrite named_single_same | rewrite named_single_other by assumption
+                     | rewrite app_nil_r ]; reflexivity.
+  Qed.
+
+  (* layout.go:212-227: the order in which CounterLookupItems is visited does
+     not change the labels nor what is filed under any string name *)
+  Theorem relabel_pass_perm_invariant l l' s :
+    NoDup l -> Permutation l l' ->
+    rs_equiv (relabel_pass reparse mlink l s) (relabel_pass reparse mlink l' s).
+  Proof.
+    intros Hnd Hp. unfold relabel_pass.
+    apply (fold_perm_commute (relabel_step reparse mlink) rs_equiv rs_equiv_refl rs_equiv_trans
+             relabel_step_compat l l' Hp Hnd).
+    - intros a b t _ _ Hne. now apply relabel_step_commute.
+    - apply rs_equiv_refl.
+  Qed.
+End RelabelProofs.
+
+(* ================================================================== *)
+(** * F. brokenOutOfFlow *)
+
+(* the unrepaired loop (pages.go:725 before 360d151) is order-sensitive as soon
+   as placement looks at what is already placed: two left floats *)
+Theorem reinsert_unordered_refuted :
+  exists (l l' : list N), NoDup l /\ Permutation l l' /\
+    reinsert_unordered place_left l <> reinsert_unordered place_left l'.
+Proof.
+  exists [50; 70]%N, [70; 50]%N. split; [|split].
+  - repeat constructor; cbn; intuition congruence.
+  - apply perm_swap.
+  - vm_compute. congruence.
+Qed.
+
+Lemma Forall_filter_nil {A} (P : A -> bool) (l : list A) :
+  filter P l = [] <-> Forall (fun x => P x = false) l.
+Proof.
+  induction l as [|x r IH]; cbn; [split; constructor|]. destruct (P x) eqn:E.
+  - split; [discriminate|]. intros H. inversion H; congruence.
+  - rewrite IH. split; [now constructor|]. intros H. now inversion H.
+Qed.
+
+Section OMapProofs.
+  Context {V : Type}.
+  Implicit Types (m : list (N * V)) (o : omap V).
+
+  Lemma alist_get_in m k : NoDup (map fst m) -> forall v, alist_get m k = Some v <-> In (k, v) m.
+  Proof.
+    induction m as [|[k' v'] r IH]; intros Hnd v; cbn; [split; [discriminate|tauto]|].
+    inversion Hnd as [|? ? Hni Hr]; subst.
+    destruct (N.eqb_spec k k') as [->|Hne].
+    - split; [intros [= ->]; now left|]. intros [[= ->]|Hin]; [reflexivity|].
+      exfalso. apply Hni. apply in_map_iff. exists (k', v). auto.
+    - rewrite IH by assumption. split; [tauto|]. intros [[= -> ->]|H]; [congruence|exact H].
+  Qed.
+
+  Lemma alist_get_none m k : alist_get m k = None <-> ~ In k (map fst m).
+  Proof.
+    induction m as [|[k' v'] r IH]; cbn; [tauto|].
+    destruct (N.eqb_spec k k') as [->|Hne]; [split; [discriminate|tauto]|].
+    rewrite IH. split; [intros H [Hk|Hk]; [congruence|tauto]|tauto].
+  Qed.
+
+  (* the Go map's internal order is invisible through lookups *)
+  Lemma alist_get_perm m m' k : NoDup (map fst m) -> Permutation m m' -> alist_get m k = alist_get m' k.
+  Proof.
+    intros Hnd Hp.
+    assert (Hnd' : NoDup (map fst m')) by (eapply Permutation_NoDup; [apply Permutation_map; exact Hp|exact Hnd]).
+    destruct (alist_get m k) as [v|] eqn:E.
+    - symmetry. apply alist_get_in; auto. eapply Permutation_in; [exact Hp|]. now apply alist_get_in.
+    - symmetry. apply alist_get_none. apply alist_get_none in E. intros Hin. apply E.
+      eapply Permutation_in; [symmetry; apply Permutation_map; exact Hp|exact Hin].
+  Qed.
+
+  (* site theorem (repaired): values() -- hence the order in which broken
+     boxes are laid out again -- is a function of the key slice and of the map
+     CONTENT; the runtime's order of the map does not reach it *)
+  Theorem om_values_perm_invariant keys m m' :
+    NoDup (map fst m) -> Permutation m m' -> om_values (OM keys m) = om_values (OM keys m').
+  Proof.
+    intros Hnd Hp. unfold om_values. cbn [om_keys om_map]. apply map_ext. intros k. now apply alist_get_perm.
+  Qed.
+
+  Lemma alist_remove_fst m k : map fst (alist_remove m k) = filter (fun k' => negb (N.eqb k' k)) (map fst m).
+  Proof. unfold alist_remove. induction m as [|[k' v'] r IH]; cbn; [reflexivity|]. destruct (N.eqb k' k); cbn; now rewrite IH. Qed.
+
+  Lemma NoDup_filter {A} (P : A -> bool) l : NoDup l -> NoDup (filter P l).
+  Proof.
+    induction 1 as [|x l Hni Hnd IH]; cbn; [constructor|]. destruct (P x); auto.
+    constructor; auto. intros Hin. apply filter_In in Hin. tauto.
+  Qed.
+
+  Lemma om_set_wf o k v : om_wf o -> om_wf (om_set o k v).
+  Proof.
+    intros (Hk & Hm & Hiff). unfold om_set, om_wf. cbn [om_keys om_map alist_set map fst].
+    rewrite alist_remove_fst. split; [|split].
+    - destruct (alist_get (om_map o) k) eqn:E; [assumption|].
+      apply alist_get_none in E. eapply Permutation_NoDup; [apply Permutation_cons_append|].
+      constructor; [|assumption]. intros Hin. apply E. now apply Hiff.
+    - constructor; [|now apply NoDup_filter].
+      intros Hin. apply filter_In in Hin. destruct Hin as [_ Hin]. now rewrite N.eqb_refl in Hin.
+    - intros x. cbn [In]. rewrite filter_In.
+      destruct (alist_get (om_map o) k) eqn:E.
+      + assert (Hin : In k (map fst (om_map o))).
+        { destruct (alist_get (om_map o) k) eqn:E'; [|discriminate].
+          apply alist_get_in in E'; auto. apply in_map_iff. exists (k, v1). auto. }
+        rewrite Hiff. destruct (N.eqb_spec x k) as [->|Hne]; cbn; intuition congruence.
+      + rewrite in_app_iff, Hiff. cbn [In]. destruct (N.eqb_spec x k) as [->|Hne]; cbn; intuition congruence.
+  Qed.
+
+  Lemma om_delete_wf o k : om_wf o -> om_wf (om_delete o k).
+  Proof.
+    intros (Hk & Hm & Hiff). unfold om_delete. destruct (alist_get (om_map o) k); [|repeat split; auto; apply Hiff].
+    unfold om_wf. cbn [om_keys om_map]. rewrite alist_remove_fst. split; [|split]; try now apply NoDup_filter.
+    intros x. rewrite !filter_In, Hiff. tauto.
+  Qed.
+
+  Lemma om_empty_wf : om_wf (@om_empty V).
+  Proof. repeat split; cbn; try constructor; tauto. Qed.
+
+  Lemma om_update_wf o other : om_wf o -> om_wf (om_update o other).
+  Proof.
+    unfold om_update. generalize (om_keys other) as ks. intros ks. revert o.
+    induction ks as [|k r IH]; intros o Hwf; cbn; [exact Hwf|].
+    apply IH. destruct (alist_get (om_map other) k); [now apply om_set_wf|exact Hwf].
+  Qed.
+
+  (* clear empties the map whatever order `range b.m` takes *)
+  Lemma fold_remove_fst order m :
+    map fst (fold_left alist_remove order m) = filter (fun k => negb (existsb (N.eqb k) order)) (map fst m).
+  Proof.
+    revert m; induction order as [|k r IH]; intros m; cbn [fold_left existsb].
+    - generalize (map fst m) as ks. induction ks as [|x t IHt]; cbn; [reflexivity|]. now f_equal.
+    - rewrite IH, alist_remove_fst. generalize (map fst m) as ks.
+      induction ks as [|x t IHt]; cbn [filter]; [reflexivity|].
+      cbn [existsb]. destruct (N.eqb x k) eqn:E; cbn [negb orb filter]; [exact IHt|].
+      destruct (existsb (N.eqb x) r); cbn [negb]; [exact IHt|now f_equal].
+  Qed.
+
+  Theorem om_clear_empty o order :
+    Permutation order (map fst (om_map o)) -> om_clear o order = om_empty.
+  Proof.
+    intros Hp. unfold om_clear, om_empty. f_equal.
+    assert (H : map fst (fold_left alist_remove order (om_map o)) = []).
+    { rewrite fold_remove_fst. apply (proj2 (Forall_filter_nil _ _)).
+      - apply Forall_forall. intros x Hx. apply negb_false_iff. apply existsb_exists. exists x.
+        split; [eapply Permutation_in; [symmetry; exact Hp|exact Hx]|apply N.eqb_refl]. }
+    destruct (fold_left alist_remove order (om_map o)); [reflexivity|discriminate].
+  Qed.
+
+  (* Python-dict behaviour of the repaired type: a new key goes last, an
+     existing key keeps its place and takes the new value *)
+  Theorem om_set_new_appends o k v : om_wf o -> alist_get (om_map o) k = None ->
+    om_values (om_set o k v) = om_values o ++ [Some v].
+  Proof.
+    intros (Hk & Hm & Hiff) E. unfold om_values, om_set. rewrite E. cbn [om_keys om_map].
+    rewrite map_app. cbn [map alist_set alist_get]. rewrite N.eqb_refl. f_equal.
+    apply map_ext_in. intros x Hx. destruct (N.eqb_spec x k) as [->|Hne].
+    - exfalso. apply alist_get_none in E. apply E. now apply Hiff.
+    - clear -Hne. induction (om_map o) as [|[k' v'] r IH]; cbn; [reflexivity|].
+      destruct (N.eqb_spec k' k) as [->|Hk]; cbn.
+      + destruct (N.eqb_spec x k); [congruence|exact IH].
+      + destruct (N.eqb x k'); [reflexivity|exact IH].
+  Qed.
+
+  Theorem om_set_existing_keeps_place o k v : alist_get (om_map o) k <> None ->
+    om_keys (om_set o k v) = om_keys o /\
+    om_values (om_set o k v) = map (fun k' => if N.eqb k' k then Some v else alist_get (om_map o) k') (om_keys o).
+  Proof.
+    intros E. unfold om_values, om_set. destruct (alist_get (om_map o) k) eqn:E'; [|congruence].
+    cbn [om_keys om_map]. split; [reflexivity|]. apply map_ext. intros x. cbn [alist_set alist_get].
+    destruct (N.eqb_spec x k) as [->|Hne]; [reflexivity|].
+    clear -Hne. induction (om_map o) as [|[k' v'] r IH]; cbn; [reflexivity|].
+    destruct (N.eqb_spec k' k) as [->|Hk]; cbn.
+    + destruct (N.eqb_spec x k); [congruence|exact IH].
+    + destruct (N.eqb x k'); [reflexivity|exact IH].
+  Qed.
+End OMapProofs.
+
+
+(* ================================================================== *)
+(** * G. ResumeStack.Unpack *)
+
+(* on a one-key stack (the contract of the Python original, which destructures
+   `(k, v), = stack.items()`) the runtime has nothing to choose *)
+Theorem unpack_single_perm_invariant (l l' : list (Z * rstack)) :
+  List.length l = 1%nat -> Permutation l l' -> unpack l = unpack l'.
+Proof.
+  intros Hlen Hp. destruct l as [|e [|? ?]]; try discriminate.
+  apply Permutation_length_1_inv in Hp. now subst.
+Qed.
+
+(* on a stack with several keys the faithful model is order-sensitive *)
+Theorem unpack_multi_refuted :
+  exists l l', NoDup (map fst l) /\ Permutation l l' /\ unpack l <> unpack l'.
+Proof.
+  exists [(0%Z, RStack []); (2%Z, RStack [])], [(2%Z, RStack []); (0%Z, RStack [])]. split; [|split].
+  - repeat constructor; cbn; intuition congruence.
+  - apply perm_swap.
+  - cbn. congruence.
+Qed.
+
+(* whatever the runtime does, the result is one of the entries; panic iff empty *)
+Theorem unpack_in l : match unpack l with
+                      | Ok e => In e l
+                      | Panic s => l = [] /\ s = unpack_site
+                      | OutOfFuel => False end.
+Proof. destruct l; cbn; auto. Qed.
+
+(* ================================================================== *)
+(** * H. non-interference *)
+Section InterferenceProofs.
+  Context {G C : Type}.
+  Notation step := (@step G C).
+  Notation threads := (@threads G C).
+
+  Lemma run_alone_readonly (p : list step) g c :
+    Forall readonly p -> fst (run_alone p g c) = g.
+  Proof.
+    unfold run_alone. revert g c. induction p as [|s r IH]; intros g c Hro; [reflexivity|].
+    inversion Hro as [|? ? Hs Hr]; subst. cbn [fold_left fst snd].
+    destruct (s g c) as [g' c'] eqn:E. cbn [fst snd].
+    assert (g' = g) by (specialize (Hs g c); now rewrite E in Hs). subst g'. now apply IH.
+  Qed.
+
+  Lemma run_alone_app (p q : list step) g c :
+    run_alone (p ++ q) g c = run_alone q (fst (run_alone p g c)) (snd (run_alone p g c)).
+  Proof.
+    unfold run_alone. rewrite fold_left_app.
+    now rewrite <- surjective_pairing.
+  Qed.
+
+  (* the invariant that relates a machine state to the sequential runs:
+     thread i has executed `done_i`, its context is what running `done_i` alone
+     from the initial context gives, and done_i ++ remaining_i is its program *)
+  Definition thread_inv (g0 : G) (init : C * list step) (dn : list step) (t : C * list step) : Prop :=
+    dn ++ snd t = snd init /\ fst t = snd (run_alone dn g0 (fst init)).
+
+  Inductive inv (g0 : G) : list (C * list step) -> list (list step) -> threads -> Prop :=
+  | inv_nil : inv g0 [] [] []
+  | inv_cons i d t is_ ds ts : thread_inv g0 i d t -> inv g0 is_ ds ts -> inv g0 (i :: is_) (d :: ds) (t :: ts).
+
+  Definition all_readonly (progs : list (C * list step)) : Prop :=
+    Forall (fun p => Forall readonly (snd p)) progs.
+
+  Lemma fire_inv g0 progs : all_readonly progs ->
+    forall i ds ts, inv g0 progs ds ts ->
+    exists ds', fire i g0 ts = (g0, snd (fire i g0 ts)) /\ inv g0 progs ds' (snd (fire i g0 ts)).
+  Proof.
+    intros Hro i ds ts Hinv. revert i. induction Hinv as [|p d t ps ds ts Ht Hinv IH]; intros i.
+    - exists []. destruct i; cbn; split; auto; constructor.
+    - inversion Hro as [|? ? Hp Hps]; subst. destruct i as [|j].
+      + destruct t as [c [|s r]].
+        * exists (d :: ds). cbn. split; [reflexivity|]. now constructor.
+        * cbn [fire]. destruct (s g0 c) as [g' c'] eqn:E. cbn [snd].
+          destruct Ht as [Happ Hc]. cbn [fst snd] in *.
+          assert (Hs : readonly s).
+          { rewrite Forall_forall in Hp. apply Hp. rewrite <- Happ. apply in_or_app. right. now left. }
+          assert (g' = g0) by (specialize (Hs g0 c); now rewrite E in Hs). subst g'.
+          exists ((d ++ [s]) :: ds). split; [reflexivity|]. constructor; [|assumption].
+          split; cbn [fst snd].
+          -- now rewrite <- app_assoc.
+          -- rewrite run_alone_app. unfold run_alone at 1. cbn [fold_left fst snd].
+             assert (Hd : Forall readonly d).
+             { rewrite Forall_forall in *. intros x Hx. apply Hp. rewrite <- Happ. apply in_or_app. now left. }
+             rewrite (run_alone_readonly d g0 (fst p) Hd), <- Hc, E. reflexivity.
+      + specialize (IH Hps j). destruct IH as [ds' [Hf Hi]].
+        destruct t as [c q]. cbn [fire].
+        destruct q; destruct (fire j g0 ts) as [g' ts'] eqn:Ef; cbn [snd] in *;
+          injection Hf as ->; exists (d :: ds'); (split; [reflexivity|now constructor]).
+  Qed.
+
+  Lemma exec_inv g0 progs : all_readonly progs ->
+    forall sched ds ts, inv g0 progs ds ts ->
+    exists ds', fst (exec sched g0 ts) = g0 /\ inv g0 progs ds' (snd (exec sched g0 ts)).
+  Proof.
+    intros Hro sched. induction sched as [|i r IH]; intros ds ts Hinv; cbn [exec].
+    - exists ds. auto.
+    - destruct (fire_inv g0 progs Hro i ds ts Hinv) as [ds' [Hf Hi]].
+      rewrite Hf. apply (IH ds'). exact Hi.
+  Qed.
+
+  Lemma inv_start g0 progs : inv g0 progs (map (fun _ => []) progs) (start progs).
+  Proof.
+    unfold start. induction progs as [|p r IH]; cbn; constructor; auto.
+    split; reflexivity.
+  Qed.
+
+  Lemma inv_finished g0 progs ds ts : inv g0 progs ds ts -> finished ts ->
+    map fst ts = map (fun p => snd (run_alone (snd p) g0 (fst p))) progs.
+  Proof.
+    induction 1 as [|p d t ps ds ts [Happ Hc] Hinv IH]; intros Hfin; [reflexivity|].
+    inversion Hfin as [|? ? Ht Hts]; subst. cbn [map]. f_equal; [|auto].
+    rewrite Ht, app_nil_r in Happ. now subst d.
+  Qed.
+
+  (* NON-INTERFERENCE: if no step of any render writes the global state, then
+     under EVERY schedule the globals stay what they were and, once every
+     render has finished, each render's context is exactly what it obtains when
+     run alone -- in particular the same under any two schedules *)
+  Theorem noninterference (g0 : G) (progs : list (C * list step)) (sched : list nat) :
+    all_readonly progs ->
+    let '(g, ts) := exec sched g0 (start progs) in
+    g = g0 /\
+    (finished ts -> map fst ts = map (fun p => snd (run_alone (snd p) g0 (fst p))) progs).
+  Proof.
+    intros Hro. destruct (exec sched g0 (start progs)) as [g ts] eqn:E.
+    destruct (exec_inv g0 progs Hro sched _ _ (inv_start g0 progs)) as [ds' [Hg Hi]].
+    rewrite E in Hg, Hi. cbn [fst snd] in *. split; [exact Hg|].
+    intros Hfin. eapply inv_finished; eauto.
+  Qed.
+
+  (* rendering one after the other (any earlier renders = history) gives each
+     render the same context as rendering it alone *)
+  Theorem sequential_is_alone (g0 : G) (progs : list (C * list step)) :
+    all_readonly progs ->
+    run_sequentially g0 progs = (g0, map (fun p => snd (run_alone (snd p) g0 (fst p))) progs).
+  Proof.
+    intros Hro. induction progs as [|[c p] r IH]; [reflexivity|].
+    inversion Hro as [|? ? Hp Hr]; subst. cbn [run_sequentially map fst snd].
+    pose proof (run_alone_readonly p g0 c Hp) as Hg.
+    destruct (run_alone p g0 c) as [g' c'] eqn:E. cbn [fst snd] in *. subst g'.
+    rewrite (IH Hr). reflexivity.
+  Qed.
+
+  (* the diamond: steps of two different renders commute *)
+  Definition ts_readonly (ts : threads) : Prop := Forall (fun t => Forall readonly (snd t)) ts.
+
+  Lemma fire_ro ts : ts_readonly ts -> forall i g,
+    fst (fire i g ts) = g /\ ts_readonly (snd (fire i g ts)).
+  Proof.
+    induction 1 as [|t r Ht Hr IH]; intros i g.
+    - destruct i; cbn; split; auto; constructor.
+    - destruct t as [c q]. destruct i as [|k].
+      + destruct q as [|s q]; cbn [fire]; [split; [reflexivity|now constructor]|].
+        inversion Ht as [|? ? Hs Hq]; subst. destruct (s g c) as [g' c'] eqn:E. cbn [fst snd].
+        split; [specialize (Hs g c); now rewrite E in Hs|]. constructor; assumption.
+      + specialize (IH k g). destruct IH as [Hg Hro].
+        destruct q; cbn [fire]; destruct (fire k g r) as [g' r'] eqn:E; cbn [fst snd] in *;
+          (split; [assumption|now constructor]).
+  Qed.
+
+  Lemma fire_S k g t (us : threads) :
+    fire (S k) g (t :: us) = (fst (fire k g us), t :: snd (fire k g us)).
+  Proof. destruct t as [c q]. cbn [fire]. destruct q; destruct (fire k g us); reflexivity. Qed.
+
+  Lemma exec2 i j g (ts : threads) :
+    exec [i; j] g ts = fire j (fst (fire i g ts)) (snd (fire i g ts)).
+  Proof.
+    cbn [exec]. destruct (fire i g ts) as [g1 t1]. cbn [fst snd]. destruct (fire j g1 t1); reflexivity.
+  Qed.
+
+  (* firing thread 0 only looks at / changes the head *)
+  Lemma fire_O_head g c q (us vs : threads) :
+    Forall readonly q ->
+    fire O g ((c, q) :: us) = (g, hd (c, q) (snd (fire O g ((c, q) :: us))) :: us) /\
+    hd (c, q) (snd (fire O g ((c, q) :: vs))) = hd (c, q) (snd (fire O g ((c, q) :: us))).
+  Proof.
+    intros Hq. destruct q as [|s q]; cbn [fire]; [split; reflexivity|].
+    inversion Hq as [|? ? Hs _]; subst. destruct (s g c) as [g1 c1] eqn:Es.
+    assert (g1 = g) by (specialize (Hs g c); now rewrite Es in Hs). subst g1. cbn. split; reflexivity.
+  Qed.
+
+  Theorem fire_commute ts : ts_readonly ts -> forall i j g, i <> j ->
+    exec [i; j] g ts = exec [j; i] g ts.
+  Proof.
+    induction 1 as [|t r Ht Hr IH]; intros i j g Hij.
+    - destruct i, j; reflexivity.
+    - rewrite !exec2. destruct t as [c q]. cbn [snd] in Ht.
+      destruct i as [|i'], j as [|j']; [congruence| | |].
+      + pose proof (fire_ro r Hr j' g) as [Hg _].
+        destruct (fire_O_head g c q r (snd (fire j' g r)) Ht) as [H1 H2].
+        destruct (fire_O_head g c q (snd (fire j' g r)) r Ht) as [H3 _].
+        rewrite H1. cbn [fst snd]. rewrite !fire_S. cbn [fst snd]. rewrite Hg, H3. cbn [fst snd].
+        now rewrite H2.
+      + pose proof (fire_ro r Hr i' g) as [Hg _].
+        destruct (fire_O_head g c q r (snd (fire i' g r)) Ht) as [H1 H2].
+        destruct (fire_O_head g c q (snd (fire i' g r)) r Ht) as [H3 _].
+        rewrite H1. cbn [fst snd]. rewrite !fire_S. cbn [fst snd]. rewrite Hg, H3. cbn [fst snd].
+        now rewrite H2.
+      + assert (Hij' : i' <> j') by congruence.
+        specialize (IH i' j' g Hij'). rewrite !exec2 in IH.
+        rewrite !fire_S. cbn [fst snd]. rewrite !fire_S. now rewrite IH.
+  Qed.
+End InterferenceProofs.
+
+(* the hypothesis is needed: with one step that writes the global state two
+   schedules give different contexts (and neither is the run-alone context) *)
+Definition bump : @step N N := fun g c => ((g + 1)%N, g).
+Theorem interference_with_global_write :
+  exists (progs : list (N * list (@step N N))) s1 s2,
+    let r1 := exec s1 0%N (start progs) in
+    let r2 := exec s2 0%N (start progs) in
+    finished (snd r1) /\ finished (snd r2) /\ map fst (snd r1) <> map fst (snd r2).
+Proof.
+  exists [(7%N, [bump]); (7%N, [bump])], [0%nat; 1%nat], [1%nat; 0%nat].
+  cbn. repeat split; try (repeat constructor); congruence.
+Qed.
